@@ -495,9 +495,12 @@ def _cases_file(imports, fexpr, chunk, show_idx=None):
              "From PdfV Require Import Base.CV %s." % " ".join(imports),
              "Import ListNotations.", "Open Scope Z_scope.", "Open Scope string_scope.",
              "Definition the_f := %s." % fexpr,
-             "Definition the_cases := ["]
+             # the list is elaborated against the domain of the_f, so that an untyped None or [] in a shard where no
+             # other case fixes the type is still well typed (false alarms with seeds 1 and 3 otherwise)
+             "Definition the_cases := ltac:(let T := type of the_f in let T := eval hnf in T in",
+             "  lazymatch T with ?A -> _ => exact (["]
     lines.append(";\n".join("  (%s, %s)" % (a, w) for a, w in chunk))
-    lines.append("]." if chunk else "].")
+    lines.append("] : list (A * cv)) end).")
     if show_idx is None:
         lines.append("Eval vm_compute in (mismatches the_f the_cases).")
     else:
